@@ -202,7 +202,7 @@ def main():
             na.append({"property_id": pid, "reason": NOT_YET})
     manifest = {
         "version": 1,
-        "setup_cmd": "cd /verif/harness && CARGO_NET_OFFLINE=true cargo build --offline --profile verif",
+        "setup_cmd": "cd /verif/harness && CARGO_NET_OFFLINE=true cargo build --offline --profile verif && cd /repo && CARGO_NET_OFFLINE=true CARGO_TARGET_DIR=/verif/harness/target/repo cargo build --offline -p worterbuch-cluster-orchestrator --no-default-features",
         "hooks": {
             "guard": "cargo feature `verif` (crate worterbuch; off by default, enabled only by /verif/harness/Cargo.toml)",
             "enable": "the harness crate depends on /repo/worterbuch by path with features [\"redb\", \"verif\"]; every ./check run does `cargo build --offline --profile verif` in /verif/harness, which rebuilds the repository crates from /repo's working tree",
